@@ -1665,7 +1665,6 @@ func (w *World) sameSource(a, b ssa.Value) bool {
 	return false
 }
 
-
 // iterLoop: a loop consuming a channel with the comma-ok receive at its header (range form
 // or an explicit `v, ok := <-ch; if !ok { leave }`), searched in root and its private helpers.
 type iterLoopInfo struct {
@@ -1705,7 +1704,6 @@ func (w *World) iterLoops(root *ssa.Function) []iterLoopInfo {
 	}
 	return out
 }
-
 
 // endMay: fn (or a private helper it calls, depth <= 3) contains a call of target.
 func endMay(fn, target *ssa.Function, unit map[*ssa.Function]bool, depth int) bool {
